@@ -425,6 +425,7 @@ class DocHarness(Harness):
         rebuilt = ex.call('<&Graph as GraphContext>::collect', [Ref(Cell(pref)), Ref(Cell(key))])
         a, b = strip_tree_ids(out['tree']), strip_tree_ids(std_json(pyval(rebuilt)))
         ctx.law('C01.copy-through-builder-keeps-every-block', a == b, {'input': ctx.input_desc, 'tree': a, 'rebuilt': b})
+        ctx.law('C07.copy-through-builder-keeps-the-outline', a == b, {'input': ctx.input_desc, 'tree': a, 'rebuilt': b})
         pn = arena_std(patch)
         pk = {k[1]: c.v for k, (kv, c) in patch.get('keys').d.items()}
         bad = check_ri(pn, pk)
@@ -529,11 +530,11 @@ class DocHarness(Harness):
             v['replay_verdict'] = 'no native panic'
             return False
         out = {'arena': res[1], 'keys': res[2], 'tree': res[3], 'project': res[4]}
-        if v['law'] in ('C01.copy-through-builder-keeps-every-block', 'C20.RI-established-by-patch-graph'):
+        if v['law'] in ('C01.copy-through-builder-keeps-every-block', 'C07.copy-through-builder-keeps-the-outline', 'C20.RI-established-by-patch-graph'):
             same = strip_tree_ids(res[3]) == strip_tree_ids(res[5]['tree'])
             bad = check_ri(res[5]['arena'], res[5]['keys'])
             v['replay_verdict'] = 'native copy: tree %s, patch arena problems %s' % ('equal' if same else 'DIFFERS', bad[:2])
-            return (not same) if v['law'].startswith('C01') else bool(bad)
+            return (not same) if not v['law'].startswith('C20') else bool(bad)
         failed = []
         def law(name, ok, info=None):
             if ok is not True:
